@@ -1032,7 +1032,7 @@ pub fn gen(g: &mut Gen) {
     gen_constant_operand_matmul(g);
     gen_cross_tape(g);
     gen_reset_cycles(g);
-    let n = if g.thorough { 40000 } else { 3000 };
+    let n = if g.thorough { 60000 } else { 6000 };
     for _ in 0..n {
         gen_case(g);
     }
